@@ -97,6 +97,22 @@ def run(F, R, tier):
             # the set is seeded with the starting points before the loop
             seeds = [n for n in walk(res["body"]) if n.get("k") == "MethodCall" and n["name"] == "insert" and n is not ins and peel(n["recv"]).get("lid") == peel(ins["recv"]).get("lid") and may_reach(F, n, lp)]
             R.ob("C14-a", "visited set is seeded before the loop", len(seeds) >= 1, "the starting specifier is not in the visited set: a cycle back to the start is followed once more", where(lp))
+            # ... and one of the seeds is the specifier the lookup started from (the parameter)
+            start_lid = res["body"]["params"][1].get("lid") if len(res["body"]["params"]) > 1 else None
+
+            def _is_start(sd):
+                a_ = peel_value(sd["args"][0])
+                if a_.get("lid") == start_lid:
+                    return True
+                if a_.get("res") != "local":
+                    return False
+                ds = local_defs(res, a_["lid"])
+                lets = [d for d in ds if d[0] == "let" and d[1] is not None]
+                asg = [d for d in ds if d[0] == "assign"]
+                return len(lets) == 1 and peel_value(lets[0][1]).get("lid") == start_lid and all(not may_reach(F, d[2], sd) for d in asg)
+            R.ob("C14-a", "the specifier the lookup starts from is in the visited set", any(_is_start(sd) for sd in seeds),
+                 "resolve() does not record its starting specifier as seen: for a redirect cycle entered on the cycle it goes once round and answers the start itself, so try_get(a) finds no slot where the walk reaches the error filed under the cycle's other member",
+                 where(lp), key="C14|C14-a|start-not-seeded")
 
     # ---------------- C14-b ------------------------------------------------
     S = Slicer(F, sources=["ModuleGraph::resolve"])
